@@ -72,7 +72,9 @@ func runC13(r *Run) {
 		n = 20000
 	}
 	corpus := []string{`union([1],[2])`, `string(["a":1,"b":2,"c":3,"d":4,"e":5])`, `["a":1,"b":2,"c":3,"d":4,"e":5]`, `[xs, xs]`, `string([m, m])`, `{c:1,a:2,b:3}`,
-		`intersect(xs, xs)`, `diff(xs, [1])`, `print(1)`, `string(mn)`, `[mn, mn]`, `string(nest)`, `string([1.5: "a", 2: "b", 10: "c"])`, `[true: 1, false: 2]`}
+		`intersect(xs, xs)`, `diff(xs, [1])`, `print(1)`, `string(mn)`, `[mn, mn]`, `string(nest)`, `string([1.5: "a", 2: "b", 10: "c"])`, `[true: 1, false: 2]`,
+		`string([1: "a", 2: "b", z / z: "n", 3: "c"])`, `[1: "a", 2: "b", 0 / 0: "n", 3: "c", 10: "d"]`, `len(union([[0 / 0: 1, 1: 2, 2: 3]], [[0 / 0: 1, 1: 2, 2: 3]]))`, `string([2: 1, 10: 2, 1e19: 3, -(1): 4, 0.5: 5])`,
+		`[z / z: 1, 1 / z: 2, -(1) / z: 3, 0: 4]`, `string(["b": [2: 1, 10: 2], "a": [10: 2, 2: 1]])`, `[[z / z: 1, 5: 2, 7: 3], [7: 3, 5: 2, z / z: 1]]`}
 	progs := append([]string{}, corpus...)
 	for i := 0; i < n; i++ {
 		g := &progGen{r: r, vars: vars, noFail: true}
